@@ -15,6 +15,7 @@ import (
 	stdx509 "crypto/x509"
 	"encoding/base64"
 	"encoding/json"
+	"encoding/pem"
 	"errors"
 	"fmt"
 	"io"
@@ -121,12 +122,17 @@ func (s *c12Sess) call(rsps []c12Rsp, f func(ctx context.Context, c *LogClient))
 
 // c12Session builds one client for key k (nil: no key) and hands it to body.
 func c12Session(k *verifkit.SKey, body func(s *c12Sess)) (setupErr string) {
+	opts := jsonclient.Options{Logger: c12Silent{}}
+	if k != nil {
+		opts.PublicKeyDER = k.SPKI
+	}
+	return c12SessionOpts(opts, body)
+}
+
+// c12SessionOpts: the same for arbitrary options (the key option is what the construction scenario varies).
+func c12SessionOpts(opts jsonclient.Options, body func(s *c12Sess)) (setupErr string) {
 	synctest.Run(func() {
 		sc := &c12Script{}
-		opts := jsonclient.Options{Logger: c12Silent{}}
-		if k != nil {
-			opts.PublicKeyDER = k.SPKI
-		}
 		c, err := New("http://log.example/prefix/", &http.Client{Transport: sc}, opts)
 		if err != nil {
 			setupErr = "client.New: " + err.Error()
@@ -454,6 +460,109 @@ func (c *c12) oneSTHOn(sess *c12Sess, class string, k *verifkit.SKey, rsp c12Rsp
 		dec.TreeSize, dec.Timestamp, verifkit.Hex(dec.SHA256RootHash), verifkit.Hex(dec.TreeHeadSignature)), ans)
 	c.out.Count("class:sth:" + class)
 	c.out.Count("outcome:" + strings.Fields(ans)[0])
+}
+
+// ---------------------------------------------------------------------------------------------- construction
+
+// construct: client.New on every kind of key option — none, well-formed, malformed, white space only, followed by garbage, DER and
+// PEM — and, when a client comes out, one get-sth with a garbage signature and one with a genuine one.  Oracle: an option that is
+// SET (non-empty DER or non-empty PEM string) gives an error or a client that verifies; it never gives a client without a verifier.
+func (c *c12) construct() {
+	r := c.r
+	pemOf := func(label string, der []byte) string {
+		return string(pem.EncodeToMemory(&pem.Block{Type: label, Bytes: der}))
+	}
+	type opt struct {
+		class string
+		der   []byte
+		pem   string
+	}
+	for _, k := range c.keys {
+		good := pemOf("PUBLIC KEY", k.SPKI)
+		opts := []opt{
+			{"none", nil, ""},
+			{"der-valid", k.SPKI, ""},
+			{"der-truncated", k.SPKI[:len(k.SPKI)-1-r.Intn(8)], ""},
+			{"der-garbage-suffix", append(append([]byte(nil), k.SPKI...), r.Bytes(1+r.Intn(4))...), ""},
+			{"der-random", r.Bytes(1 + r.Intn(90)), ""},
+			{"der-single-zero", []byte{0}, ""},
+			{"der-empty-slice+pem-valid", []byte{}, good},
+			{"der-valid+pem-garbage", k.SPKI, "not a key"},
+			{"der-garbage+pem-valid", []byte{0x30, 0x03, 0x02, 0x01, 0x01}, good},
+			{"pem-valid", nil, good},
+			{"pem-valid-no-final-newline", nil, strings.TrimRight(good, "\n")},
+			{"pem-leading-text", nil, "# log key\n" + good},
+			{"pem-leading-blank-lines", nil, "\n\n" + good},
+			{"pem-trailing-blank-line", nil, good + "\n"},
+			{"pem-trailing-spaces", nil, good + "  \t\n"},
+			{"pem-garbage-suffix", nil, good + "garbage"},
+			{"pem-two-blocks", nil, good + good},
+			{"pem-other-label", nil, pemOf("CERTIFICATE", k.SPKI)},
+			{"pem-bad-base64", nil, "-----BEGIN PUBLIC KEY-----\n!!!!\n-----END PUBLIC KEY-----\n"},
+			{"pem-empty-block", nil, "-----BEGIN PUBLIC KEY-----\n-----END PUBLIC KEY-----\n"},
+			{"pem-of-truncated-der", nil, pemOf("PUBLIC KEY", k.SPKI[:len(k.SPKI)-2])},
+			{"pem-of-der-with-suffix", nil, pemOf("PUBLIC KEY", append(append([]byte(nil), k.SPKI...), 0))},
+			{"pem-unterminated", nil, good[:len(good)-12]},
+			{"text-only", nil, "not a key"},
+			{"whitespace-newline", nil, "\n"},
+			{"whitespace-space", nil, " "},
+			{"whitespace-mixed", nil, " \r\n\t\n"},
+			{"whitespace-many-newlines", nil, strings.Repeat("\n", 1+r.Intn(5))},
+			{"nul-byte", nil, "\x00"},
+		}
+		for _, o := range opts {
+			given := len(o.der) > 0 || o.pem != ""
+			// the harness' own reading of the option (standard library): exactly one well-formed key?
+			parsed := false
+			if len(o.der) > 0 {
+				_, err := stdx509.ParsePKIXPublicKey(o.der)
+				parsed = err == nil
+			} else if o.pem != "" {
+				if b, rest := pem.Decode([]byte(o.pem)); b != nil && len(rest) == 0 {
+					_, err := stdx509.ParsePKIXPublicKey(b.Bytes)
+					parsed = err == nil
+				}
+			}
+			key := "newc " + o.class + " key=" + k.Name
+			f := sthFields{size: r.U64() >> uint(r.Intn(64)), ts: r.U64() >> uint(r.Intn(64)), root: r.Bytes(32)}
+			genuine := f
+			genuine.sig = c12DS(4, c12SigAlg(k), k.Sign(4, verifkit.STHSigInput(0, f.ts, f.size, f.root)))
+			bogus := f
+			bogus.sig = c12DS(4, c12SigAlg(k), []byte{0xde, 0xad})
+			ans := ""
+			setupErr := c12SessionOpts(jsonclient.Options{Logger: c12Silent{}, PublicKeyDER: o.der, PublicKey: o.pem}, func(s *c12Sess) {
+				ans = "ok keyless"
+				if s.cl.Verifier != nil {
+					ans = "ok verifier"
+				}
+				if given && s.cl.Verifier == nil {
+					c.out.Fail(key+" key-option-set-but-no-verifier", fmt.Sprintf("New(Options{PublicKeyDER: %x, PublicKey: %q}) built a client with Verifier == nil: signature checking silently off", o.der, o.pem))
+				}
+				var sth *ct.SignedTreeHead
+				var err error
+				p := s.call([]c12Rsp{{status: 200, body: bogus.json()}}, func(ctx context.Context, cl *LogClient) { sth, err = cl.GetSTH(ctx) })
+				if given && p == "" && err == nil && sth != nil {
+					c.out.Fail(key+" unverified-sth-returned", fmt.Sprintf("New(Options{PublicKeyDER: %x, PublicKey: %q}) then GetSTH handed back %s whose signature is the two octets dead", o.der, o.pem, bogus.json()))
+				}
+				if p != "" {
+					c.out.Fail(key+" panic", p)
+				}
+				p = s.call([]c12Rsp{{status: 200, body: genuine.json()}}, func(ctx context.Context, cl *LogClient) { sth, err = cl.GetSTH(ctx) })
+				if p != "" || err != nil || sth == nil {
+					c.out.Fail(key+" genuine-sth-refused", fmt.Sprintf("%v %s", err, p))
+				}
+			})
+			if setupErr != "" {
+				ans = "err"
+				if !given {
+					c.out.Fail(key+" construction-failed-without-key-option", setupErr)
+				}
+			}
+			c.out.T(fmt.Sprintf("newc %s %s", verifkit.B(given), verifkit.B(parsed)), ans)
+			c.out.Count("class:newc:" + o.class)
+			c.out.Count("outcome:newc-" + strings.ReplaceAll(ans, " ", "-"))
+		}
+	}
 }
 
 // ---------------------------------------------------------------------------------------------- add-chain
@@ -1199,8 +1308,22 @@ func (c *c12) entries() {
 		decode(en)
 	}
 
-	// GetEntries over responses mixing genuine and damaged entries
-	n := verifkit.N(120, 3000)
+	// GetEntries over responses mixing genuine and damaged entries; first a sweep: every entry of the pool that does not decode
+	// (unknown entry type, damaged leaf, fatal certificate …) alone, and between / before / after genuine ones, answered 200
+	var sweep [][]int
+	for d := 10; d < len(pool); d++ {
+		g1, g2 := r.Intn(10), r.Intn(10)
+		sweep = append(sweep, []int{g1, d, g2})
+		switch d % 3 {
+		case 0:
+			sweep = append(sweep, []int{d})
+		case 1:
+			sweep = append(sweep, []int{g1, d})
+		default:
+			sweep = append(sweep, []int{d, g2})
+		}
+	}
+	n := verifkit.N(120, 3000) + len(sweep)
 	for it := 0; it < n; it++ {
 		cnt := r.Intn(4)
 		var idx []int
@@ -1210,6 +1333,9 @@ func (c *c12) entries() {
 			} else {
 				idx = append(idx, r.Intn(10)) // genuine
 			}
+		}
+		if it < len(sweep) {
+			idx = sweep[it]
 		}
 		type je struct {
 			LeafInput []byte `json:"leaf_input"`
@@ -1225,7 +1351,11 @@ func (c *c12) entries() {
 		}
 		body, _ := json.Marshal(map[string]interface{}{"entries": es})
 		class := "valid-json"
-		switch r.Intn(10) {
+		bp := r.Intn(10)
+		if it < len(sweep) {
+			bp, class = 9, "sweep"
+		}
+		switch bp {
 		case 0:
 			body, class = body[:r.Intn(len(body))], "truncated-json"
 		case 1:
@@ -1235,7 +1365,7 @@ func (c *c12) entries() {
 		}
 		var dec ct.GetEntriesResponse
 		jsonOK := json.NewDecoder(bytes.NewReader(body)).Decode(&dec) == nil
-		if class != "valid-json" && class != "json-then-garbage" {
+		if class != "valid-json" && class != "json-then-garbage" && class != "sweep" {
 			toks = nil
 			for _, e := range dec.Entries {
 				toks = append(toks, fmt.Sprintf("%s %s 0", verifkit.Hex(e.LeafInput), verifkit.Hex(e.ExtraData)))
@@ -1247,7 +1377,13 @@ func (c *c12) entries() {
 		status := c12Statuses[r.Intn(len(c12Statuses))]
 		start, end := int64(r.Intn(100)), int64(0)
 		end = start + int64(r.Intn(5))
-		switch r.Intn(12) {
+		pick := r.Intn(12)
+		if it < len(sweep) {
+			status, pick = 200, 11
+			start = 1 + int64(r.Intn(100))
+			end = start + int64(len(idx)) - 1
+		}
+		switch pick {
 		case 0:
 			end = start - 1 - int64(r.Intn(3))
 		case 1:
@@ -1287,6 +1423,11 @@ func (c *c12) entriesCall(class string, status int, body []byte, start, end int6
 			e := got[i]
 			if e.Index != start+int64(i) {
 				c.out.Fail(key+" index", fmt.Sprint(e.Index))
+			}
+			if e.Leaf.TimestampedEntry == nil {
+				c.out.Fail(key+" partially-filled-result", fmt.Sprintf("entry %d of %d is a zero-valued LogEntry, returned with a nil error; response %s", i, len(got), body))
+				ans += " zero-entry"
+				continue
 			}
 			ans += " " + c12Show(&ct.RawLogEntry{Index: e.Index, Leaf: e.Leaf, Cert: c12Submitted(&e), Chain: e.Chain})
 			c12CertCoversField(c.out, key, &e)
@@ -1575,6 +1716,7 @@ func TestVerifC12(t *testing.T) {
 	c := &c12{out: out, r: verifkit.NewRand(verifkit.Seed()),
 		keys:  []*verifkit.SKey{verifkit.KeyByName("p256"), verifkit.KeyByName("rsa2048")},
 		other: map[string]*verifkit.SKey{"ecdsa": verifkit.KeyByName("p256b"), "rsa": verifkit.KeyByName("rsa2048b")}}
+	c.construct()
 	c.sth()
 	c.add()
 	c.plain()
